@@ -1,0 +1,18 @@
+//! Verification hooks. Compiled only with the `verif-hooks` feature; no effect unless a callback
+//! is installed by a test harness.
+use std::sync::OnceLock;
+
+static PREEMPT: OnceLock<fn(&'static str)> = OnceLock::new();
+
+/// Install the pre-emption callback (once per process).
+pub fn set_preempt_hook(f: fn(&'static str)) {
+    let _ = PREEMPT.set(f);
+}
+
+/// Named pre-emption point: a no-op unless a callback is installed.
+#[inline]
+pub fn preempt(point: &'static str) {
+    if let Some(f) = PREEMPT.get() {
+        f(point)
+    }
+}
